@@ -807,6 +807,21 @@ impl BigDecimal {
             return self.clone();
         }
 
+        // the magnitude is inverted and the sign copied afterwards, so for a
+        // negative value Floor and Ceiling have to be exchanged
+        let mirrored_ctx;
+        let ctx = match (self.sign(), ctx.rounding_mode()) {
+            (Sign::Minus, RoundingMode::Floor) => {
+                mirrored_ctx = ctx.with_rounding_mode(RoundingMode::Ceiling);
+                &mirrored_ctx
+            }
+            (Sign::Minus, RoundingMode::Ceiling) => {
+                mirrored_ctx = ctx.with_rounding_mode(RoundingMode::Floor);
+                &mirrored_ctx
+            }
+            _ => ctx,
+        };
+
         let uint = self.int_val.magnitude();
         let result = arithmetic::inverse::impl_inverse_uint_scale(uint, self.scale, ctx);
 
